@@ -88,8 +88,10 @@ def check_case(inputs, cmps, job, registry):
     roots = {m.index: m for m in reg.models}
     for name, samples in inputs:
         # the root class is the one whose model carries the given name (possibly merged: look it up by pointer)
-        root_models = [m for m in reg.models if any(p.parent is None for p in m.pointers)
-                       and (m.name == name or name in (m.name or "").split("_"))]
+        with_root_ptr = [m for m in reg.models if any(p.parent is None for p in m.pointers)]
+        root_models = [m for m in with_root_ptr if m.name == name or name in (m.name or "").split("_")]
+        if not root_models and len(inputs) == 1 and len(with_root_ptr) == 1:
+            root_models = with_root_ptr     # the given name was converted into a class name (Données -> Donnees)
         if not root_models:
             return {"kind": "root-class-missing", "observed": name}, None
         cls_name = root_models[0].name
